@@ -9,13 +9,17 @@ graph evaluation).
     (compile seg assets (uid*))        -> (ok (symbol*)) | (error assembly|keyError|assertion|unexpected)
     (run assets (symbol*))             -> (ok ((key val)*) (key*) (key*) agree) | cyclic    vals, trace, sinks, memo==value
     (eval seg assets)                  -> (ok ((uid val)*) none|(some val)) | cyclic
-    (dfs seg)                          -> (ok (uid*))
+    (dfs seg)                          -> (ok (uid*) <each> connected closed)   <each> ::= (ok (uid*)) | cyclic
+       `Segment.visitOrder`; `Segment.each` (the traversal with the recursion path and the `Cyclic` test); the member
+       list is the reachable set (`connected`); subscriptions stay inside the member list (`closed`)
     (wf seg assets ((uid rank)*))      -> (ok wf assetsOK)
     (all seg assets (uid*) ((uid rank)*)) -> (all <compile> <run|skip> <eval> <dfs> <wf> <spec>)
        <spec> ::= (describes linked)  compiled table == specTable up to order (false when compile fails); linked
     (all seg assets (uid*) ((uid rank)*) (val*)) -> (all ... <spec> (reruns ((key val)*) ((key val)*)))
        the compiled table executed again on the store its first execution left (`storeSeq 1`), and once more after an
        external commit replaced the previous generation by the given states; `(reruns)` without accessor / on failure
+    (all seg assets (uid*) ((uid rank)*) (val*) (val*)) -> … (reruns r2 r3 r4): a fourth execution after a commit from
+       outside with the second list of states (`commitExternal`: refused unless one state per persistent group)
 -/
 import ForML.Model.Sexp
 import ForML.Model.SymbolsSexp
@@ -23,6 +27,7 @@ import ForML.Model.Compile
 import ForML.Model.GraphEval
 import ForML.Model.CompileSpec
 import ForML.Model.Rerun
+import ForML.Model.Traversal
 open ForML ForML.Flow
 
 def bool? : Sexp → Option Bool
@@ -108,7 +113,11 @@ def evalOut (g : Segment) (A : Option Assets) : Sexp :=
   .list [.atom "ok", .list (r.values.map fun (u, v) => .list [.ofNat u, v.toSexp]),
          Sexp.ofOption Val.toSexp r.commit]
 
-def dfsOut (g : Segment) : Sexp := .list [.atom "ok", Sexp.ofNats g.visitOrder]
+def dfsOut (g : Segment) : Sexp :=
+  let each := match g.each with
+    | .ok o => Sexp.list [.atom "ok", Sexp.ofNats o]
+    | .error .cyclic => .atom "cyclic"
+  .list [.atom "ok", Sexp.ofNats g.visitOrder, each, Sexp.ofBool g.connected, Sexp.ofBool g.closed]
 
 def wfOut (g : Segment) (A : Option Assets) (rank : Uid → Nat) : Sexp :=
   .list [.atom "ok", Sexp.ofBool (g.wf rank), Sexp.ofBool (g.assetsOK A)]
@@ -118,13 +127,16 @@ def valsOut (m : Memo) : Sexp :=
   | .list [vals, _] => vals
   | _ => .list []
 
-def rerunOut (g : Segment) (A : Option Assets) (o : List Uid) (ext : List Val) : Sexp :=
+def rerunOut (g : Segment) (A : Option Assets) (o : List Uid) (ext : List Val) (wrong : Option (List Val)) : Sexp :=
   match compile g A o, A with
   | .ok t, some As =>
     if !acyclicTable t then .list [.atom "reruns"] else
     let A2 := storeSeq A t 1
     let A3 : Option Assets := some { As with prev := ext }
-    .list [.atom "reruns", valsOut (run A2 t), valsOut (run A3 t)]
+    let r4 := match wrong, storeAfter A3 (run A3 t) with
+      | some w, some As4 => [valsOut (run (some (commitExternal As4 w)) t)]
+      | _, _ => []
+    .list ([.atom "reruns", valsOut (run A2 t), valsOut (run A3 t)] ++ r4)
   | _, _ => .list [.atom "reruns"]
 
 def stepC01 : Sexp → Sexp
@@ -148,11 +160,18 @@ def stepC01 : Sexp → Sexp
     match segment? seg, Assets.ofSexp? assets, rank? rk with
     | some g, some A, some r => wfOut g A r
     | _, _, _ => .atom "bad-op"
+  | .list [.atom "all", seg, assets, order, rk, .list ext, .list wrong] =>
+    match segment? seg, Assets.ofSexp? assets, order.natList?, rank? rk, ext.mapM Val.ofSexp?, wrong.mapM Val.ofSexp? with
+    | some g, some A, some o, some r, some ext, some wrong =>
+      match stepC01 (.list [.atom "all", seg, assets, order, rk]) with
+      | .list items => .list (items ++ [rerunOut g A o ext (some wrong)])
+      | x => x
+    | _, _, _, _, _, _ => .atom "bad-op"
   | .list [.atom "all", seg, assets, order, rk, .list ext] =>
     match segment? seg, Assets.ofSexp? assets, order.natList?, rank? rk, ext.mapM Val.ofSexp? with
     | some g, some A, some o, some r, some ext =>
       match stepC01 (.list [.atom "all", seg, assets, order, rk]) with
-      | .list items => .list (items ++ [rerunOut g A o ext])
+      | .list items => .list (items ++ [rerunOut g A o ext none])
       | x => x
     | _, _, _, _, _ => .atom "bad-op"
   | .list [.atom "all", seg, assets, order, rk] =>
